@@ -207,6 +207,12 @@ def _frame(w, fr, indent):
 def _text_elem(w, name, attrs, text, indent):
     if text == '' and w.r.random() < 0.5:
         w.start(name, attrs, empty=True, indent=indent)
+    elif w.varied and text and w.r.random() < 0.04:
+        # xml:space="preserve": the content is taken as it stands (written without any padding here, so the value is
+        # the same); the elements after it must be normalised again
+        w.start(name, list(attrs) + [('xml:space', 'preserve')], indent=indent)
+        w.out.append(str(text).replace('&', '&amp;').replace('<', '&lt;').replace('>', '&gt;'))
+        w.end(name, inline=True)
     else:
         w.start(name, attrs, indent=indent)
         w.out.append(w.text(text))
